@@ -12,7 +12,8 @@
    All theorems are about [reviewed_prog]; C19_gen_matches ties it to spinlock.h as read on this run. *)
 From Coq Require Import List NArith Bool.
 From PV Require Import Spin.Lang Spin.Reviewed Spin.Sem Spin.RaceSem Spin.Registry
-  Spin.SpinProofs Spin.RegistryProofs Spin.GenMatches Gen.SpinGen.
+  Spin.SpinProofs Spin.RegistryProofs Spin.GenMatches Gen.SpinGen
+  Spin.MixLang Spin.MixSem Spin.MixProofs Spin.GenMatchesMixins Gen.MixinsGen.
 Import ListNotations.
 Local Open Scope N_scope.
 
@@ -183,6 +184,51 @@ Theorem C19_default_cleared_on_destroy r :
 Proof. exact (default_cleared_on_destroy r). Qed.
 Print Assumptions C19_default_cleared_on_destroy.
 
+(* the tie of the mixins to the source: regenerated bodies (lock_guard scope explicit) = reviewed bodies *)
+Theorem C19_gen_matches_mixins : MixinsGen.gen_mixins = reviewed_mixins.
+Proof. exact gen_matches_mixins. Qed.
+Print Assumptions C19_gen_matches_mixins.
+
+(* Identifiable, fine-grained (MixSem.v: any number of threads, arbitrary lists of
+   create/destroy/get_object, one translated instruction per step, blocking mutex): every
+   access to next_id_ / objects_ is made by a thread that holds mutex_ *)
+Theorem C19_identifiable_accesses_guarded clients s :
+  freach reviewed_mixins clients s -> unguarded s = false.
+Proof. exact (identifiable_accesses_guarded clients s). Qed.
+Print Assumptions C19_identifiable_accesses_guarded.
+
+(* ... so the operations are atomic: with the mutex free the registry is a state of the atomic
+   model (rreach), and while it is held exactly the holder is inside an operation *)
+Theorem C19_identifiable_steps_atomic clients s :
+  freach reviewed_mixins clients s ->
+  (mtx s = None -> rreach (shr s) /\ forall t th, nth_error (ths s) t = Some th -> held th = false /\ mfresh th = true) /\
+  (forall w, mtx s = Some w ->
+     (exists th, nth_error (ths s) w = Some th /\ held th = true) /\
+     forall t th, t <> w -> nth_error (ths s) t = Some th -> held th = false /\ mfresh th = true).
+Proof. exact (identifiable_steps_atomic clients s). Qed.
+Print Assumptions C19_identifiable_steps_atomic.
+
+(* ... hence ids are unique and resolvable while objects are created and destroyed concurrently *)
+Theorem C19_identifiable_ids_unique_concurrent clients s :
+  freach reviewed_mixins clients s -> mtx s = None ->
+  let r := shr s in
+  (forall p i, lookup (live r) p = Some i -> lookup (objects r) i = Some p) /\
+  (forall p q i, lookup (live r) p = Some i -> lookup (live r) q = Some i -> p = q) /\
+  (forall i, (forall p, lookup (live r) p <> Some i) -> lookup (objects r) i = None) /\
+  (forall p i, lookup (live r) p = Some i -> i < next_id r).
+Proof. exact (identifiable_ids_unique_concurrent clients s). Qed.
+Print Assumptions C19_identifiable_ids_unique_concurrent.
+
+(* DefaultSettable (not synchronised by the library; single-threaded use): the reviewed bodies
+   compute exactly the default-slot transitions of Registry.v *)
+Theorem C19_default_slot_bodies_match_registry r p :
+  (forall r' v, reg_step r (RDestroy p) = Some (r', v) -> dflt r' = fst (ds_run (ds_dtor reviewed_mixins) p 0 (dflt r))) /\
+  (forall r' v, reg_step r (RSetDefault p) = Some (r', v) -> dflt r' = fst (ds_run (ds_set reviewed_mixins) 0 p (dflt r))) /\
+  (forall r' v, reg_step r RGetDefault = Some (r', v) ->
+     r' = r /\ snd (ds_run (ds_get reviewed_mixins) 0 0 (dflt r)) = Some v).
+Proof. exact (default_slot_bodies_match_registry r p). Qed.
+Print Assumptions C19_default_slot_bodies_match_registry.
+
 (* ---------------------------------------------------------------- non-vacuity *)
 (* a concrete 2-thread trace of the RecursiveSpinlock: thread 0 holds the lock twice and has
    touched the data, thread 1's try_lock failed and it now spins in lock() *)
@@ -279,4 +325,39 @@ Proof.
       try (vm_compute; reflexivity); try (intros p H; discriminate H);
       try (intros p H; vm_compute; reflexivity).
   - vm_compute. repeat split; reflexivity.
+Qed.
+
+(* fine-grained Identifiable: thread 0 is inside its constructor (between the two halves of
+   next_id_++, holding the mutex), thread 1 is blocked at its lock_guard *)
+Example C19_nonvacuous_identifiable :
+  exists s, freach reviewed_mixins [[RCreate 10; RGet 0; RDestroy 10]; [RCreate 11; RGet 1]] s /\
+    mtx s = Some 0%nat /\ map tmp (ths s) = [Some 0; None] /\ map held (ths s) = [true; false] /\
+    fstep reviewed_mixins 1%nat s = None.
+Proof.
+  exists (frun reviewed_mixins [0;1;0]%nat (finit reviewed_mixins [[RCreate 10; RGet 0; RDestroy 10]; [RCreate 11; RGet 1]])).
+  split; [apply freach_frun; apply freach_init | vm_compute; repeat split; reflexivity].
+Qed.
+(* ... and a complete run: ids 0 and 1, object 10 destroyed, id 1 still resolves to object 11 *)
+Example C19_nonvacuous_identifiable_run :
+  exists s, freach reviewed_mixins [[RCreate 10; RGet 0; RDestroy 10]; [RCreate 11; RGet 1]] s /\
+    mtx s = None /\ live (shr s) = [(11, 1)] /\ objects (shr s) = [(1, 11)] /\ next_id (shr s) = 2 /\ unguarded s = false.
+Proof.
+  exists (frun reviewed_mixins [0;1;0;0;0;0;1;1;1;1;1;0;0;0;0;0;0;0;1;1;1;1;1]%nat
+            (finit reviewed_mixins [[RCreate 10; RGet 0; RDestroy 10]; [RCreate 11; RGet 1]])).
+  split; [apply freach_frun; apply freach_init | vm_compute; repeat split; reflexivity].
+Qed.
+
+(* the guard matters: with the id taken in the member-initializer list, i.e. BEFORE the
+   lock_guard (Identifiable() : id_(next_id_++) { lock_guard ...; emplace }), two constructors
+   can take the same id, and a live object is no longer resolvable *)
+Definition unlocked_take_id : mixins :=
+  {| id_ctor := [MTakeId; MLock; MEmplace; MUnlock]; id_dtor := id_dtor reviewed_mixins;
+     id_get := id_get reviewed_mixins; ds_dtor := ds_dtor reviewed_mixins;
+     ds_get := ds_get reviewed_mixins; ds_set := ds_set reviewed_mixins |}.
+Example C19_unlocked_take_id_refuted :
+  exists s, freach unlocked_take_id [[RCreate 10]; [RCreate 11]] s /\ mtx s = None /\
+    live (shr s) = [(11, 0); (10, 0)] /\ lookup (objects (shr s)) 0 = Some 10 /\ unguarded s = true.
+Proof.
+  exists (frun unlocked_take_id [0;1;0;1;0;0;0;1;1;1]%nat (finit unlocked_take_id [[RCreate 10]; [RCreate 11]])).
+  split; [apply freach_frun; apply freach_init | vm_compute; repeat split; reflexivity].
 Qed.
